@@ -945,6 +945,14 @@ func (hm *HandshakeManager) continueHandshake(via ViaSender, hh *HandshakeHostIn
 		}
 	}
 
+	if correctHostResponded && !via.IsRelayed && !f.lightHouse.GetRemoteAllowList().AllowAll(vpnAddrs, via.UdpAddr.Addr()) {
+		// The pre-check above only knew the vpn address we were dialing, the certificate may carry more
+		f.l.Debug("lighthouse.remote_allow_list denied incoming handshake",
+			"vpnAddrs", vpnAddrs, "from", via)
+		hm.DeleteHostInfo(hostinfo)
+		return
+	}
+
 	if !correctHostResponded {
 		f.l.Info("Incorrect host responded to handshake",
 			"intendedVpnAddrs", hostinfo.vpnAddrs,
